@@ -28,6 +28,41 @@ def violates(cf, pics):
     return None
 
 
+PIC = "(low_delay_picture | high_quality_picture | low_delay_picture_fragment | high_quality_picture_fragment)"
+EXTRA_PATTERNS = [
+    "sequence_header (auxiliary_data %s+)+ end_of_sequence $" % PIC,      # an auxiliary data unit before every picture
+    "sequence_header (padding_data %s+)+ end_of_sequence $" % PIC,
+    "sequence_header (auxiliary_data padding_data %s+)* auxiliary_data end_of_sequence $" % PIC,
+    "(sequence_header %s+)+ end_of_sequence $" % PIC,                    # a repeated header before every picture
+]
+
+
+def violates_with_pattern(cf, pics, pattern):
+    """make_sequence with an extra data-unit pattern (several auxiliary / padding units or repeated headers in one
+    sequence), serialised and validated: accepted, same pictures"""
+    from vc2_conformance.encoder import make_sequence
+    from vc2_conformance.encoder.exceptions import UnsatisfiableCodecFeaturesError
+    from vc2_conformance.bitstream import Stream, autofill_and_serialise_stream
+
+    try:
+        seq = make_sequence(cf, copy.deepcopy(pics), pattern)
+    except UnsatisfiableCodecFeaturesError:
+        return None
+    except Exception as e:  # noqa
+        return "make_sequence with the pattern %r failed: %s: %s" % (pattern, type(e).__name__, str(e)[:160])
+    f = BytesIO()
+    try:
+        autofill_and_serialise_stream(f, Stream(sequences=[seq]))
+    except Exception as e:  # noqa
+        return "the sequence built for the pattern %r cannot be serialised: %s: %s" % (pattern, type(e).__name__, str(e)[:160])
+    verdict, out = G.decode(f.getvalue())
+    if verdict != "OK":
+        return "validator (pattern %r): %s" % (pattern, verdict)
+    if len(out) != len(pics):
+        return "%d pictures decoded for %d inputs (pattern %r)" % (len(out), len(pics), pattern)
+    return None
+
+
 def lossless_boundary():
     """lossless HQ slices whose coded size sits at the 8-bit length-field boundary: the length fields the
     encoder computes must be serialisable (a unit-level instance of 'the encoder's output serialises')"""
@@ -169,6 +204,12 @@ class Prop(object):
                 cf = G.rand_config(rng, vary_metadata=True)
                 pics = G.rand_pictures(rng, cf)
             why = violates(cf, pics)
+            if not why and i % 6 == 5:
+                pattern = EXTRA_PATTERNS[(i // 6) % len(EXTRA_PATTERNS)]
+                why = violates_with_pattern(cf, pics, pattern)
+                ctx.count("e2e:extra-pattern")
+                if why and not self._bad:
+                    self._bad = {"config": G.describe(cf), "pictures": pics, "pattern": pattern, "why": why}
             ctx.evaluations += 1
             ctx.count("e2e:profile%d:%s" % (int(cf["profile"]), "lossless" if cf["lossless"] else "lossy"))
             ctx.count("e2e:frag:%s" % ("none" if cf["fragment_slice_count"] == 0 else "some"))
@@ -195,6 +236,11 @@ class Prop(object):
             why = violates(cf, pics)
             if why:
                 return {"config": G.describe(cf), "pictures": pics, "why": why}
+            if i % 6 == 5:
+                pattern = EXTRA_PATTERNS[(i // 6) % len(EXTRA_PATTERNS)]
+                why = violates_with_pattern(cf, pics, pattern)
+                if why:
+                    return {"config": G.describe(cf), "pictures": pics, "pattern": pattern, "why": why}
         return None
 
     def replay(self, ctx, path):
@@ -208,7 +254,8 @@ class Prop(object):
             b = lossless_boundary()
             print("replay ->", b["why"] if b else "property holds")
             return 1 if b else 0
-        why = violates(G.from_description(fi["config"]), fi["pictures"])
+        cf = G.from_description(fi["config"])
+        why = violates_with_pattern(cf, fi["pictures"], fi["pattern"]) if fi.get("pattern") else violates(cf, fi["pictures"])
         print("replay ->", why or "property holds")
         return 1 if why else 0
 
